@@ -294,12 +294,20 @@ def trace_inputs(trace, entry=None):
     kv = {}
     text = {}
     nd = 0
+    nd_last = None
     for st in trace:
-        if st.get("stepType") == "assignment" and not st.get("hidden") and re.match(r"^(goto_symex\$\$)?return_value(\$\$)?_?nondet_\w+", st.get("lhs", "")) and "binary" in st.get("value", {}):
+        # nondet_*() wrapper calls (contracts/common.h): the value of a call is the LAST assignment to its local nd_rec
+        # (the declaration itself also shows up as an assignment of an arbitrary value)
+        if st.get("stepType") == "function-return" and (st.get("function", {}).get("displayName", "") or "").startswith("nondet_") and not (st.get("function", {}).get("displayName", "") or "").startswith("nondet_raw_"):
+            if nd_last is not None:
+                kv["nd.%d" % nd] = nd_last
+                nd += 1
+            nd_last = None
+            continue
+        if st.get("stepType") == "assignment" and st.get("lhs", "") == "nd_rec" and st.get("sourceLocation", {}).get("function", "").startswith("nondet_") and "binary" in st.get("value", {}):
             v = st["value"]
             try:
-                kv["nd.%d" % nd] = [int(v["binary"], 2), int(v.get("width", len(v["binary"])))]
-                nd += 1
+                nd_last = [int(v["binary"], 2), int(v.get("width", len(v["binary"])))]
             except ValueError:
                 pass
             continue
@@ -379,9 +387,10 @@ def main():
     jobs = load_jobs()
     known, fixed = load_known()
     sel = [j for j in jobs if args.prop in j["props"] or args.prop == "ALL"]
-    sel = [j for j in sel if j["tier"] != "off"]   # "off": written and kept, but not decidable on this machine (see DESIGN 8.2)
+    if not os.environ.get("VERIF_INCLUDE_OFF"):
+        sel = [j for j in sel if j["tier"] != "off"]   # "off": written and kept, but not decidable on this machine (see DESIGN 8.2)
     if args.tier == "quick":
-        sel = [j for j in sel if j["tier"] == "quick" and args.prop not in j.get("thorough_for", [])]
+        sel = [j for j in sel if j["tier"] in ("quick", "off") and args.prop not in j.get("thorough_for", [])]
         if args.prop == "C01":
             core = [j for j in sel if j.get("c01_core") or any(j["name"].startswith(pfx) for pfx in C01_CORE)]
             sel = core
